@@ -67,16 +67,21 @@ class Place:
             self.root = f"/s{os.getpid()}_{tag}"
             self.url = "vtrace://" + self.root
 
-    def put(self, name, data, replace=False):
+    def put(self, name, data, replace=False, old_times=False):
         if self.fsname in ("local", "file"):
+            dst = os.path.join(self.dir, name)
             if replace:  # delivered the way rsync / a download manager does it: a new file renamed over the old one (new inode)
                 tmp = os.path.join(os.path.dirname(self.dir), f".incoming_{name}")
                 with open(tmp, "wb") as f:
                     f.write(data)
-                os.replace(tmp, os.path.join(self.dir, name))
+                if old_times:
+                    os.utime(tmp, (978307200, 978307200))
+                os.replace(tmp, dst)
                 return
-            with open(os.path.join(self.dir, name), "wb") as f:
+            with open(dst, "wb") as f:
                 f.write(data)
+            if old_times:  # delivered with the ORIGINAL file times kept (rsync -t, cp -p, tar x): older than any index written meanwhile
+                os.utime(dst, (978307200, 978307200))
         elif self.fsname == "memory":
             self.fs.pipe(f"{self.root}/{name}", bytes(data))
         else:
@@ -105,7 +110,9 @@ class Place:
 
     def listing(self):
         if self.fsname in ("local", "file"):
-            return {n: hashlib.sha256(open(os.path.join(self.dir, n), "rb").read()).hexdigest()[:16] for n in sorted(os.listdir(self.dir))}
+            out = {n: hashlib.sha256(open(os.path.join(self.dir, n), "rb").read()).hexdigest()[:16] for n in sorted(os.listdir(self.dir))}
+            out["."] = str(os.stat(self.dir).st_mtime_ns)   # entries created and removed again inside the directory leave this trace
+            return out
         if self.fsname == "memory":
             return {p[len(self.root) + 1:]: hashlib.sha256(self.fs.cat(p)).hexdigest()[:16] for p in self.fs.find(self.root)}
         return {k[len(self.root) + 1:]: hashlib.sha256(v).hexdigest()[:16] for k, v in tracefs.STORE.items() if k.startswith(self.root + "/")}
@@ -266,8 +273,9 @@ class Session:
     # ------------------------------------------------------------------ environment
     def deliver(self, l, v):
         replace = self.rng.random() < 0.5
+        old_times = self.rng.random() < 0.4
         for name, data in self.built[v].files.items():
-            self.place[l].put(name, data, replace=replace)
+            self.place[l].put(name, data, replace=replace, old_times=old_times)
             with open(os.path.join(self.twin[l], name), "wb") as f:
                 f.write(data)
         self.cur[l] = v
@@ -530,11 +538,11 @@ class Session:
             self.damaged[last["loc"]] = {}
         elif op == "copyto":
             src, dst = last["loc"], last["dst"]
-            for n in list(self.place[dst].listing()):
+            for n in [x for x in self.place[dst].listing() if x != "."]:
                 self.place[dst].remove(n)
             for n in os.listdir(self.twin[dst]):
                 os.remove(os.path.join(self.twin[dst], n))
-            for n in self.place[src].listing():
+            for n in [x for x in self.place[src].listing() if x != "."]:
                 data = self.place[src].get(n)
                 self.place[dst].put(n, data)
                 if not n.endswith(".index"):
@@ -607,7 +615,7 @@ class Session:
             for l, pl in self.place.items():
                 after = pl.listing()
                 delta = sorted(k for k in after.keys() | before_prod[l].keys() if after.get(k) != before_prod[l].get(k))
-                allowed = {self.names[last["img"]] + ".index"} if (op == "cli" and last["loc"] == l and last["target"] == "adjacent") else set()
+                allowed = {self.names[last["img"]] + ".index", "."} if (op == "cli" and last["loc"] == l and last["target"] == "adjacent") else set()
                 if any(d not in allowed for d in delta):
                     find("product_modified", f"{op} changed the product directory at {l}: {delta}")
             after_cache = snapshot(self.cache_home)
